@@ -161,6 +161,25 @@ func c18Statement(r *core.Rand, g *gen.StmtGen) (string, string) {
 	case 19:
 		return fmt.Sprintf("SELECT * FROM %s", pick(r, []string{"sys_pages", "sys_schema"})) + pick(r, []string{"", " ORDER BY table_name", " WHERE file_offset > 0", " WHERE field_type = 'x'"}), "catalog"
 	case 20:
+		if r.Bool() {
+			// an aggregate next to a comparison or a bare column in the
+			// select list, over no rows at all (an empty table, a condition
+			// nothing meets), with and without grouping
+			agg := fmt.Sprintf("%s(%s)", pick(r, []string{"count", "avg"}), pick(r, append([]string{"*"}, c18Cols...)))
+			if strings.HasPrefix(agg, "avg(*") {
+				agg = "count(*)"
+			}
+			items := []string{agg, c18Cond(r, nil)}
+			if r.Bool() {
+				items = append(items, col())
+			}
+			if r.Bool() {
+				items[0], items[1] = items[1], items[0]
+			}
+			from := pick(r, []string{"e", "t1 WHERE i > 99", "t1 WHERE i = 1 AND i = 2", "e x JOIN e y ON x.i = y.i", "t1 LEFT JOIN e ON t1.i = e.i WHERE t1.i > 50"})
+			tail := pick(r, []string{"", "", " GROUP BY " + col(), " ORDER BY " + col()})
+			return "SELECT " + strings.Join(items, ", ") + " FROM " + from + tail, "empty_table"
+		}
 		return fmt.Sprintf("SELECT count(%s), avg(%s) FROM e", col(), col()), "empty_table"
 	}
 	return model.RenderN(g.Any(), model.Style{KwCase: r.Intn(3), R: r}), "grammar_random"
